@@ -1,0 +1,11 @@
+//go:build verif
+
+// Verification contracts (property C31, addition; comment-only, read by /verif/govc). No executable code.
+// rewriteProduceRecords decodes the records of EVERY batch of a partition before it decides that the batch has nothing
+// to rewrite: no shortcut (a byte scan of the possibly compressed records section, a size test, ...) skips the decode,
+// so a flagged record inside any batch is seen by the per-record loop.
+
+package main
+
+//@ func (m *lfsModule) rewriteProduceRecords
+//@   every_iteration_calls [C31.every_batch_is_decoded] batch: lfsDecodeBatchRecords
